@@ -4,6 +4,7 @@ import (
 	"bytes"
 	"context"
 	"io"
+	"math"
 	"strings"
 	"sync"
 	"time"
@@ -248,6 +249,7 @@ func (b *Bar) IncrBy(n int) {
 func (b *Bar) IncrInt64(n int64) {
 	select {
 	case b.operateState <- func(s *bState) {
+		n := saturate(s.current, n)
 		s.current += n
 		if s.triggerComplete && s.current >= s.total {
 			s.current = s.total
@@ -256,6 +258,17 @@ func (b *Bar) IncrInt64(n int64) {
 	}:
 	case <-b.ctx.Done():
 	}
+}
+
+// saturate returns n, reduced so that current+n stays within int64.
+func saturate(current, n int64) int64 {
+	if n > 0 && current > math.MaxInt64-n {
+		return math.MaxInt64 - current
+	}
+	if n < 0 && current < math.MinInt64-n {
+		return math.MinInt64 - current
+	}
+	return n
 }
 
 // EwmaIncrement is a shorthand for b.EwmaIncrInt64(1, iterDur).
@@ -282,7 +295,7 @@ func (b *Bar) EwmaIncrInt64(n int64, iterDur time.Duration) {
 				wg.Done()
 			}()
 		}
-		s.current += n
+		s.current += saturate(s.current, n)
 		if s.triggerComplete && s.current >= s.total {
 			s.current = s.total
 			s.triggerCompletion(b)
